@@ -79,10 +79,10 @@ class Ref:
         return obj
 
     def relate(self, src, dst):
-        for ents in list(self.nodes.get(src.path, {}).values()):
-            for d in list(ents):
-                self._put(d.path, dst)
-                self._put(dst.path, d)
+        snapshot = [d for ents in self.nodes.get(src.path, {}).values() for d in ents]     # `get(path=src.path)` is a new list
+        for d in snapshot:
+            self._put(d.path, dst)
+            self._put(dst.path, d)
 
     def invalidate(self, loc, path):
         if path != "" and path not in self.nodes:
@@ -97,27 +97,36 @@ class Ref:
         return sorted(o.path for o in self.nodes.get(path, {}).get(loc, []) if o.valid)
 
 
-def gen_history(rng: random.Random, nloc: int, depth: int, nops: int):
+def gen_history(rng: random.Random, nloc: int, depth: int, nops: int, wrapped: bool = False):
     names = ["a", "b", "e", "f"]
     pool = []
     for _ in range(rng.randint(2, 6)):
         d = rng.randint(1, depth)
         pool.append("/" + "/".join(rng.choice(names) for _ in range(d)))
     ops, nreg, rloc = [], 0, []
+    inner = set()          # indices of the inner (host side) objects of wrapped registrations: not handed to the caller
     for _ in range(nops):
         r = rng.random()
         if r < 0.45 or nreg < 2:
             p = rng.choice(pool)
             if rng.random() < 0.2:
                 p = str(Path(p).parent) if p.count("/") > 1 else p
-            ops.append(("reg", rng.randrange(nloc), p))
+            l = rng.randrange(nloc)
+            if l == 2 and wrapped:
+                # location 2 wraps location 0 with the mount /m -> /a: one register_path call registers both ends and relates them
+                ops.append(("wreg", 2, "/m" + p, 0, "/a" + p))
+                inner.add(nreg + 1)
+                rloc += [2, 0]
+                nreg += 2
+                continue
+            ops.append(("reg", l, p))
             rloc.append(ops[-1][1])
             nreg += 1
         elif r < 0.65:
             # relations join copies on DIFFERENT locations (a transfer); what invalidating one of two related paths on the
             # same location should do to the other is not fixed by the property (the code follows the relation)
             a, b = rng.randrange(nreg), rng.randrange(nreg)
-            if rloc[a] != rloc[b]:
+            if rloc[a] != rloc[b] and not (wrapped and (a in inner or b in inner)):
                 ops.append(("rel", a, b))
         else:
             p = rng.choice(pool)
@@ -137,6 +146,10 @@ CORPUS = [
     [("reg", 0, "/a/f"), ("reg", 1, "/b/g"), ("rel", 0, 1), ("inv", 1, "/b/g"), ("reg", 1, "/b/g"), ("rel", 0, 2)],
     # DESIGN §6 #21: unbounded recursion
     [("reg", 0, "/e/f"), ("reg", 0, "/e"), ("rel", 0, 1), ("inv", 0, "/e")],
+    # a subtree skipped by the invalidation walk
+    [("reg", 1, "/b/e/a"), ("reg", 0, "/b"), ("reg", 1, "/b/e/a/f"), ("rel", 1, 0), ("inv", 1, "/")],
+    # wrapped location d2 (mount /m -> /a on d0): one call registers both ends
+    [("reg", 1, "/x"), ("wreg", 2, "/m/b/f", 0, "/a/b/f"), ("inv", 0, "/a/b/f"), ("wreg", 2, "/m/b/f", 0, "/a/b/f"), ("inv", 2, "/m")],
     [("reg", 0, "/a/b/c"), ("inv", 0, "/a"), ("reg", 0, "/a/b/c"), ("reg", 1, "/a/b"), ("inv", 0, "/a/b/c"), ("inv", 1, "/")],
     [("reg", 0, "/a"), ("reg", 0, "/a"), ("inv", 0, "/a"), ("inv", 0, "/a"), ("reg", 0, "/a"), ("inv", 0, "/zz")],
     [("reg", 0, "/a/f"), ("reg", 0, "/b/g"), ("rel", 0, 1), ("inv", 0, "/a"), ("reg", 0, "/a/f")],
@@ -159,7 +172,7 @@ class C21(Property):
     trusted_base = [
         "modelled, not verified: pathlib.Path(p).parts and posixpath.join on normalised absolute paths; dict/list/set semantics; "
         "DataLocation objects as heap cells with a mutable validity flag; `available` events are not modelled",
-        "wrapped locations (mount points, get_inner_path) are not in the Lean model",
+        "a registration on a wrapped location (mount points, get_inner_path) enters the Lean model as its three primitive steps: register outer, register inner, relate",
     ]
     technique = ("Lean 4 model of the trie with object identities (heap) and the valid_paths cache; negative witnesses by kernel "
                  "evaluation and induction on the step budget; invariants for relation-free histories; differential correspondence")
@@ -172,9 +185,19 @@ class C21(Property):
     assumptions = ["paths are normalised absolute POSIX paths; one location name per deployment"]
     min_nontrivial = 30
 
+    def _fail(self, ctx: Ctx, key, detail, replay):
+        """known findings are reported a few times per key, so that the failure list keeps room for other kinds"""
+        self._per_key[key] = self._per_key.get(key, 0) + 1
+        if self._per_key[key] <= 5:
+            ctx.fail(key, detail, replay)
+        else:
+            ctx.count("more:" + key)
+
     def _run(self, ctx: Ctx, ops, nloc, lines, expect, meta, bucket):
         dm = DefaultDataManager(_Context())
         locs = [ExecutionLocation(name="loc", deployment=f"d{i}", local=False) for i in range(nloc)]
+        if any(o[0] == "wreg" for o in ops):
+            locs[2] = ExecutionLocation(name="loc", deployment="d2", local=False, mounts={"/m": "/a"}, wraps=locs[0])
         ref = Ref()
         regs, rregs = [], []
         universe = set()
@@ -190,6 +213,21 @@ class C21(Property):
                 universe.update(prefixes(p))
                 res, rres = "ok", "ok"
                 lines.append(f"reg {l} {pp(p)}")
+                if seen_inv:
+                    nontriv = True
+            elif op[0] == "wreg":
+                _, l, p, li, pi = op
+                regs += [dm.register_path(locs[l], p), None]           # one call: outer + inner registration + relation
+                ro, ri = ref.register(l, p), ref.register(li, pi)
+                ref.relate(ro, ri)
+                rregs += [ro, ri]
+                universe.update(prefixes(p))
+                universe.update(prefixes(pi))
+                res, rres = "ok", "ok"
+                k = len(regs) - 2
+                lines += [f"reg {l} {pp(p)}", f"reg {li} {pp(pi)}", f"rel {k} {k + 1}"]
+                expect += ["ok", "ok"]
+                meta += [(ops, i, "wreg"), (ops, i, "wreg")]
                 if seen_inv:
                     nontriv = True
             elif op[0] == "rel":
@@ -220,7 +258,7 @@ class C21(Property):
             meta.append((ops, i, op[0]))
             ctx.count("op:" + op[0] + ("" if res == "ok" else ":" + res))
             if res == "RecursionError":
-                ctx.fail("registry:invalidate-recursion", f"invalidate_location({op[1]}, {op[2]!r}) raises RecursionError after {ops[:i]}",
+                self._fail(ctx, "registry:invalidate-recursion", f"invalidate_location({op[1]}, {op[2]!r}) raises RecursionError after {ops[:i]}",
                          {"ops": ops[: i + 1], "nloc": nloc})
                 break
             if res != rres:
@@ -228,7 +266,7 @@ class C21(Property):
                 break
             if res == "KeyError":
                 continue
-            bad = None
+            diffs = []
             for q in sorted(universe):
                 for l in range(nloc):
                     real = sorted(o.path for o in dm.get_data_locations(q, deployment=f"d{l}", location_name="loc"))
@@ -236,35 +274,56 @@ class C21(Property):
                     lines.append(f"get {l} {pp(q)}")
                     expect.append(";".join(pp(x) for x in sorted(real, key=pp)) or "-")
                     meta.append((ops, i, f"get_data_locations({q!r}, d{l})"))
-                    if real != want and bad is None:
-                        bad = (q, l, real, want)
-            if bad is not None:
-                q, l, real, want = bad
-                # narrow classification: a path is still listed in the node's valid_paths although no valid object carries it
+                    if real != want:
+                        diffs.append((q, l, real, want))
+            if diffs:
+                has_rel = any(o[0] in ("rel", "wreg") for o in ops[: i + 1])
                 stale = []
 
-                def walk(node, where):
+                def walk(node, where, l):
                     vp = node.valid_paths.get(f"d{l}", {}).get("loc", set())
                     objs = node.locations.get(f"d{l}", {}).get("loc", [])
                     stale.extend((where, x) for x in vp if not any(o.path == x and o.data_type != DataType.INVALID for o in objs))
                     for tok, ch in node.children.items():
-                        walk(ch, where + [tok])
+                        walk(ch, where + [tok], l)
 
-                walk(dm.path_mapper._filesystem, [])
-                missing = [x for x in want if x not in real]
-                extra = [x for x in real if x not in want]
-                key = ("registry:stale-valid-paths-hide-new-location" if missing and not extra and stale
-                       else "registry:differs-from-reference")
-                ctx.fail(key, f"after {ops[: i + 1]}: get_data_locations({q!r}, d{l}) = {real}, reference {want}; stale valid_paths {stale}",
-                         {"ops": ops[: i + 1], "nloc": nloc})
+                def beneath(q, p):
+                    return p == "/" or q == p or q.startswith(p.rstrip("/") + "/")
+
+                key, shown = None, diffs[0]
+                if op[0] == "inv":
+                    b_extra = [d for d in diffs if d[1] == op[1] and beneath(d[0], op[2]) and not [x for x in d[3] if x not in d[2]]]
+                    other_loc = [d for d in diffs if d[1] != op[1]]
+                    if other_loc:
+                        key, shown = "registry:invalidate-touches-other-location", other_loc[0]
+                    elif b_extra and has_rel:
+                        key, shown = "registry:invalidate-skips-subtree", b_extra[0]
+                    elif has_rel and not [d for d in diffs if beneath(d[0], op[2])]:
+                        # only paths outside the invalidated subtree differ, on the invalidated location, in a history with
+                        # relations: what happens to the *other* end of a relation is not fixed by the property (the code shares
+                        # one object per registration, the reference too, but they reach it from different nodes). Not judged.
+                        ctx.count("unspecified:relation-collateral")
+                        break
+                else:
+                    q, l, real, want = diffs[0]
+                    walk(dm.path_mapper._filesystem, [], l)
+                    missing = [x for x in want if x not in real]
+                    extra = [x for x in real if x not in want]
+                    if missing and not extra and stale and has_rel:
+                        key = "registry:stale-valid-paths-hide-new-location"
+                q, l, real, want = shown
+                self._fail(ctx, key or "registry:differs-from-reference",
+                           f"after {ops[: i + 1]}: get_data_locations({q!r}, d{l}) = {real}, reference {want}; stale valid_paths {stale[:4]}",
+                           {"ops": ops[: i + 1], "nloc": nloc})
                 break
         ctx.case({"ops": [list(o) for o in ops[:10]], "nloc": nloc}, ("h", nloc, repr(ops)) if nontriv else None, bucket)
 
     def explore(self, ctx: Ctx) -> None:
         rng = ctx.rng
+        self._per_key = {}
         lines, expect, meta = [], [], []
         for ops in CORPUS:
-            self._run(ctx, ops, 2, lines, expect, meta, "corpus")
+            self._run(ctx, ops, 3 if any(o[0] == "wreg" for o in ops) else 2, lines, expect, meta, "corpus")
             ctx.corpus_replayed += 1
         n = 400 if ctx.tier == "quick" else 5000
         if ctx.mode == "search":
@@ -274,7 +333,9 @@ class C21(Property):
                 ctx.extra["incomplete"] = True
                 break
             nloc = rng.randint(1, 3)
-            self._run(ctx, gen_history(rng, nloc, rng.randint(1, 4), rng.randint(3, 14)), nloc, lines, expect, meta, "random")
+            wrapped = nloc == 3 and rng.random() < 0.5
+            self._run(ctx, gen_history(rng, nloc, rng.randint(1, 4), rng.randint(3, 14), wrapped), nloc, lines, expect, meta,
+                      "random:wrapped" if wrapped else "random")
         got = ctx.lean(DRIVER, lines)
         seen = set()
         for gl, e, (ops, i, what) in zip(got, expect, meta):
@@ -288,6 +349,7 @@ class C21(Property):
             return super().replay(ctx, data)
         ops = [tuple(o) for o in r["ops"]]
         lines, expect, meta = [], [], []
+        self._per_key = {}
         self._run(ctx, ops, r.get("nloc", 3), lines, expect, meta, "replay")
         got = ctx.lean(DRIVER, lines)
         for ln, gl, e in zip(lines, got, expect):
